@@ -21,7 +21,7 @@ import itertools
 
 from .lib.hir import *
 from .lib import x_rangediff as X
-from .lib.x_prov import Prov, pat_binds
+from .lib.x_prov import Prov, pat_binds, find_loop, loop_parts
 
 META = dict(
     technique="finite-domain evaluation of the decision template extracted from type-checked HIR (K7) + status-map agreement (K5)",
@@ -44,24 +44,6 @@ def _fmt(res):
     return name + "(" + ",".join(f"{f}={m(d)}" for f, d in sorted(fields.items())) + ")"
 
 
-def find_loop(fn):
-    loops = [n for n in walk(fn["body"]) if n.get("e") == "match" and "ForLoopDesugar" in n.get("src", "")
-             and is_call_to(unwrap(n["scrut"]), "IntoIterator::into_iter", "into_iter")]
-    return loops
-
-
-def loop_parts(loop):
-    """(iterated expr, item pattern, body) of a desugared for-loop."""
-    it = unwrap(loop["scrut"])["args"][0]
-    for n in walk(loop["arms"][0]["body"]):
-        if n.get("e") == "match" and "ForLoopDesugar" in n.get("src", "") and n is not loop:
-            for a in n["arms"]:
-                if a["pat"].get("p") in ("struct", "tstruct") and ends(a["pat"]["path"].get("def", ""), "core::option::Option::Some"):
-                    pat = a["pat"]["fields"][0]["pat"] if a["pat"]["p"] == "struct" else a["pat"]["pats"][0]
-                    return it, pat, a["body"]
-    return it, None, None
-
-
 def check_structure(ctx, fn, ci, si):
     R = "K7-structure"
     P = Prov(fn)
@@ -75,7 +57,7 @@ def check_structure(ctx, fn, ci, si):
                      "for (key, window) in <map>", "for-loop desugaring / item pattern not recognised (shape not understood)", file=fn["file"], line=loop.get("line")):
         return False
     labs = P.labels(it)
-    ctx.check(labs == {f"p{si}"}, R, fn["fn"], "loop-over-supplier",
+    over_supplier = ctx.check(labs == {f"p{si}"}, R, fn["fn"], "loop-over-supplier",
               "the loop enumerates the supplier's servers",
               f"the per-server loop iterates over something derived from {sorted(labs)}, not from the supplier's map (parameter {si}): "
               "servers the consumer has never seen would not be supplied",
@@ -96,7 +78,13 @@ def check_structure(ctx, fn, ci, si):
             if k.get("e") == "path" and k["res"].get("local") in key_locals:
                 allowed.add(id(unwrap(n["recv"])))
     bad = []
+    noise = set()       # logging / assertion macros may mention anything
     for n in walk(body):
+        if n.get("exp") and X.is_macro_noise(n):
+            noise |= {id(x) for x in walk(n)}
+    for n in walk(body):
+        if id(n) in noise:
+            continue
         if n.get("e") == "path" and "local" in n["res"]:
             lid = n["res"]["local"]
             if lid in P.param_of or lid in inside or lid in key_locals:
@@ -132,7 +120,7 @@ def check_structure(ctx, fn, ci, si):
     ctx.check(not used, R, fn["fn"], "post-loop-moves-only", "after the loop the maps are only moved into the result",
               f"code after the loop inspects a result map ({used[:3]}); the (lagging, advanced) table no longer determines the result (shape not understood)",
               file=fn["file"], line=fn["line"])
-    return True
+    return over_supplier
 
 
 def run(ctx):
@@ -149,7 +137,10 @@ def run(ctx):
     if not ctx.check(len(fn["params"]) == 2, "K7-callsite", fn["fn"], "two-parameters", "range_diff(a, b)", "range_diff no longer takes two maps (shape not understood)",
                      file=fn["file"], line=fn["line"]):
         return
-    check_structure(ctx, fn, ci, si)
+    if not check_structure(ctx, fn, ci, si):
+        # the sides bound at the call site do not match the roles inside range_diff: every row would disagree for that one reason
+        ctx.notes.append("rows not evaluated: structure check failed (sides at the call site and inside range_diff disagree, or shape not understood)")
+        return
 
     def evaluate(consumer, supplier):
         try:
@@ -221,6 +212,8 @@ def run(ctx):
         res = {}
         cnt = 0
         for tup in itertools.product(per, repeat=nserv):
+            key = "combo:" + "+".join(X.classify(c, s) for c, s in tup)
+            r = res.setdefault(key, [])
             if any((c, s) in bad_pairs for c, s in tup):
                 continue
             cons, supp = {}, {}
@@ -229,11 +222,9 @@ def run(ctx):
                 supp[k] = s
                 if c is not None:
                     cons[k] = c
-            key = "combo:" + "+".join(X.classify(c, s) for c, s in tup)
             got, err = evaluate(cons, supp)
             exp = X.spec(cons, supp)
             cnt += 1
-            r = res.setdefault(key, [])
             if err or got != exp:
                 r.append((cons, supp, err or _fmt(got), _fmt(exp)))
         return res, cnt
